@@ -31,7 +31,11 @@ def lp_wrap(fragment, nack_reason='absent', token=None, extra=False, frag=None, 
         hdr.append((0x0320, inner))
     if extra:
         hdr.append((0x032C, st.uint_bytes(300)))          # IncomingFaceId
+        hdr.append((0x0330, st.uint_bytes(7)))            # NextHopFaceId
+        hdr.append((0x0334, [(0x0335, st.uint_bytes(1))]))  # CachePolicy { CachePolicyType = NoCache }
         hdr.append((0x0340, st.uint_bytes(1)))            # CongestionMark
+        hdr.append((0x0348, st.uint_bytes(9)))            # TxSequence
+        hdr.append((0x034C, b''))                         # NonDiscovery (no value)
         hdr.append((0x0354, b'\x01\x02'))                 # unknown, ignorable (800..959, low bits 00)
     if odd:
         hdr.append((0x0341, b'\x07'))                     # unknown, odd type number
@@ -76,7 +80,9 @@ class PitRun:
     def data_wire(self, d):
         key = (tuple(d['name']), d['id'])
         if key not in self.wires:
-            self.wires[key] = bytes(enc.make_data(nm(d['name']), enc.MetaInfo(), b'D%d' % d['id']))
+            # FreshnessPeriod present for even ids only: matching does not depend on it (nor on the Interest's MustBeFresh)
+            mi = enc.MetaInfo(freshness_period=1000) if d['id'] % 2 == 0 else enc.MetaInfo()
+            self.wires[key] = bytes(enc.make_data(nm(d['name']), mi, b'D%d' % d['id']))
         return self.wires[key]
 
     def int_name(self, t):
@@ -124,6 +130,9 @@ class PitRun:
     def wrap(self, wire, env, **kw):
         if env == 'bare':
             return wire
+        # a forwarder may echo a PIT token on Data as well: it does not change how the packet is processed
+        if env == 'lph':
+            kw.setdefault('token', b'\xaa\xbb\xcc\xdd')
         return lp_wrap(wire, extra=(env == 'lph'), odd=(env == 'lpo'), **kw)
 
     def npit(self):
@@ -195,7 +204,8 @@ class PitRun:
             t = ev['t']
             e = len(self.tasks) + 1
             name = self.int_name(t)
-            kw = dict(can_be_prefix=bool(t['cbp']), lifetime=t['life'] * TICK_MS, nonce=0x01020304)
+            kw = dict(can_be_prefix=bool(t['cbp']), lifetime=t['life'] * TICK_MS, nonce=0x01020304,
+                      must_be_fresh=(e % 4 == 1))
             if e % 5 == 0:
                 del kw['nonce']          # the library draws the nonce itself
             if t['life'] == DEFAULT_LIFE:
@@ -210,7 +220,7 @@ class PitRun:
                 if self.shared_param is None:
                     self.shared_param = enc.InterestParam()
                 sp = self.shared_param
-                sp.can_be_prefix, sp.lifetime, sp.nonce, sp.must_be_fresh = bool(t['cbp']), t['life'] * TICK_MS, 0x01020304, False
+                sp.can_be_prefix, sp.lifetime, sp.nonce, sp.must_be_fresh = bool(t['cbp']), t['life'] * TICK_MS, 0x01020304, (e % 8 == 0)
                 kw = dict(interest_param=sp)
             self.vfut.append([])
             try:
